@@ -30,17 +30,29 @@ try:
                     mut.append(os.path.relpath(os.path.join(root, f), wt))
         elif line[:2].strip() != 'D':
             mut.append(rel)
-    mut = [m for m in mut if m.endswith('.go') and not m.endswith('_test.go') or m.endswith('.json')]
-    print('changed files:', mut)
+    embedded = [m for m in mut if not m.endswith('.go')]
+    mut = [m for m in mut if m.endswith('.go') and not m.endswith('_test.go')]
+    print('changed files:', mut, 'embedded/non-go:', embedded)
     margs = []
     for m in mut:
         margs += ['-mutate', f'/repo/{m}={wt}/{m}']
+    in_place = bool(embedded)  # go:embed'ed files cannot be replaced through the overlay: apply to /repo for the build only
     built = {}
     def build(variant):
         if variant in built:
             return built[variant]
         out = f'/verif/.work/bin/vh-mut-{variant}-{os.getpid()}'
-        r = subprocess.run(['/verif/.work/bin/vbuild', '-variant', variant, '-o', out] + margs, env=env, capture_output=True, text=True)
+        if in_place:
+            if subprocess.run(['git', '-C', '/repo', 'status', '--porcelain'], capture_output=True, text=True).stdout.strip():
+                print('/repo is not clean; refusing to apply the patch in place'); sys.exit(3)
+            subprocess.run(['git', '-C', '/repo', 'apply', '--whitespace=nowarn', patch], check=True)
+            try:
+                r = subprocess.run(['/verif/.work/bin/vbuild', '-variant', variant, '-o', out], env=env, capture_output=True, text=True)
+            finally:
+                subprocess.run(['git', '-C', '/repo', 'checkout', '--', '.'], check=True)
+                subprocess.run(['git', '-C', '/repo', 'clean', '-fdq'], check=True)
+        else:
+            r = subprocess.run(['/verif/.work/bin/vbuild', '-variant', variant, '-o', out] + margs, env=env, capture_output=True, text=True)
         if r.returncode != 0:
             print(f'BUILD FAILED ({variant}):', r.stderr[-1500:])
             built[variant] = None
